@@ -360,5 +360,90 @@ theorem store_lay {b : EntriesB} {items : List Entry} {bounds : List EntryBound}
         ++ (g2 ++ (k ++ (v ++ back))))).length = _
     rw [hlen]; simp [hE, hback, hg2]; omega
 
+theorem alloc_ok (g : Nat → Nat → UInt8) {n : Nat} (hal : n % 16 = 0) (h0 : n ≠ 0)
+    (hlt : n < 2 ^ 63) : alloc g n = .ok (fresh g n, [.alloc n]) := by
+  unfold alloc Entries.alloc
+  simp only [Entries.roundUp_of_mod hal, h0, if_false, show ¬ (n ≥ 2 ^ 63) by omega]
+
+/-- **`reallocate_buffer`**: all four slice accesses are in range; the new allocation holds the
+    same bound records at its front and the same entry bytes at its back. -/
+theorem reallocate_lay (g : Nat → Nat → UInt8) {b : EntriesB} {items : List Entry}
+    {bounds : List EntryBound} {gap : Bytes} (h : Lay b items bounds gap)
+    (hal : b.buf.length % 16 = 0) (hpos : 16 ≤ b.buf.length) (hsm : b.buf.length < 2 ^ 62) :
+    ∃ b' gap', reallocate g b = .ok (b', [.alloc (b.buf.length * 2), .dealloc b.buf.length]) ∧
+      Lay b' items bounds gap' ∧ b'.buf.length = b.buf.length * 2 ∧
+      b'.entriesLen = b.entriesLen ∧ b'.boundsCount = b.boundsCount := by
+  have hlen := h.length
+  let E := encodeBounds bounds
+  let back := backBytes items
+  have hE : E.length = 16 * b.boundsCount := by simp [E, h.cnt]
+  have hback : back.length = b.entriesLen := by simp [back, h.elen]
+  have hb0 : b.buf = E ++ (gap ++ back) := h.buf
+  have r1 : readAt b.buf 0 (b.boundsCount * boundSize) = .ok E := by
+    have := readAt_mid [] E (gap ++ back) 0 (b.boundsCount * boundSize) rfl
+      (by simp [hE, boundSize]; omega)
+    rw [hb0]; simpa using this
+  have hsub : Entries.sub b.buf.length b.entriesLen = .ok (E ++ gap).length := by
+    rw [sub_ok (by omega)]; congr 1; simp [hE]; omega
+  have r2 : readAt b.buf (E ++ gap).length (b.buf.length - (E ++ gap).length) = .ok back := by
+    have hn : b.buf.length - (E ++ gap).length = back.length := by simp [hE, hback]; omega
+    rw [hn, hb0]
+    have := readAt_mid (E ++ gap) back [] (E ++ gap).length back.length rfl rfl
+    simpa using this
+  have hg : ¬ (b.buf.length * 2 ≥ usizeLimit) := by unfold usizeLimit; omega
+  obtain ⟨f1, r, hf1, hl1⟩ := split_at_len (fresh g (b.buf.length * 2)) E.length (by simp; omega)
+  have hr : r.length = b.buf.length * 2 - E.length := by
+    have : (fresh g (b.buf.length * 2)).length = f1.length + r.length := by rw [hf1]; simp
+    simp at this; omega
+  obtain ⟨f2, f3, hf3, hl3⟩ := split_at_len_back r back.length (by omega)
+  have hf2 : f2.length = b.buf.length * 2 - E.length - back.length := by
+    have : r.length = f2.length + f3.length := by rw [hf3]; simp
+    omega
+  have ha : alloc g (b.buf.length * 2) = .ok (f1 ++ (f2 ++ f3), [.alloc (b.buf.length * 2)]) := by
+    rw [alloc_ok g (by omega) (by omega) (by omega), hf1, hf3]
+  have w1 : writeAt (f1 ++ (f2 ++ f3)) 0 E = .ok (E ++ (f2 ++ f3)) := writeAt_front _ _ _ hl1.symm
+  have hsub2 : Entries.sub (E ++ (f2 ++ f3)).length b.entriesLen = .ok (E ++ f2).length := by
+    rw [sub_ok (by simp; omega)]; congr 1; simp [hl3, hback]; omega
+  have hg2 : ¬ ((E ++ (f2 ++ f3)).length - (E ++ f2).length ≠ back.length) := by
+    simp [hl3]; omega
+  have w2 : writeAt (E ++ (f2 ++ f3)) (E ++ f2).length back = .ok (E ++ (f2 ++ back)) := by
+    have := writeAt_mid (E ++ f2) f3 [] back (E ++ f2).length rfl hl3.symm
+    simpa using this
+  refine ⟨{ b with buf := E ++ (f2 ++ back) }, f2, ?_, ⟨rfl, h.cnt, h.elen, h.rng⟩, ?_, rfl, rfl⟩
+  · unfold reallocate
+    simp only [r1, hsub, r2, hg, if_false, ha, w1, hsub2, hg2, w2, List.singleton_append]
+  · show (E ++ (f2 ++ back)).length = _
+    simp [hE, hf2, hback]; omega
+
+theorem reallocate_big (g : Nat → Nat → UInt8) {b : EntriesB} {items : List Entry}
+    {bounds : List EntryBound} {gap : Bytes} (h : Lay b items bounds gap)
+    (hal : b.buf.length % 16 = 0) (hbig : 2 ^ 62 ≤ b.buf.length) :
+    reallocate g b = .error .arith := by
+  have hlen := h.length
+  let E := encodeBounds bounds
+  let back := backBytes items
+  have hE : E.length = 16 * b.boundsCount := by simp [E, h.cnt]
+  have hback : back.length = b.entriesLen := by simp [back, h.elen]
+  have hb0 : b.buf = E ++ (gap ++ back) := h.buf
+  have r1 : readAt b.buf 0 (b.boundsCount * boundSize) = .ok E := by
+    have := readAt_mid [] E (gap ++ back) 0 (b.boundsCount * boundSize) rfl
+      (by simp [hE, boundSize]; omega)
+    rw [hb0]; simpa using this
+  have hsub : Entries.sub b.buf.length b.entriesLen = .ok (E ++ gap).length := by
+    rw [sub_ok (by omega)]; congr 1; simp [hE]; omega
+  have r2 : readAt b.buf (E ++ gap).length (b.buf.length - (E ++ gap).length) = .ok back := by
+    have hn : b.buf.length - (E ++ gap).length = back.length := by simp [hE, hback]; omega
+    rw [hn, hb0]
+    have := readAt_mid (E ++ gap) back [] (E ++ gap).length back.length rfl rfl
+    simpa using this
+  unfold reallocate
+  simp only [r1, hsub, r2]
+  by_cases hg : b.buf.length * 2 ≥ usizeLimit
+  · simp [hg]
+  · have c2 : ¬ (b.buf.length * 2 = 0) := by omega
+    have c3 : b.buf.length * 2 ≥ 2 ^ 63 := by omega
+    simp [hg, alloc, Entries.alloc, Entries.roundUp_of_mod (show b.buf.length * 2 % 16 = 0 by omega),
+      c2, c3]
+
 end EntriesB
 end Grenad
